@@ -65,7 +65,17 @@ func (s *Scope) Reset(u *Scope) {
 		atomic.StorePointer(&s.storage, unsafe.Pointer(nil))
 	} else {
 		for _, m := range metrics {
-			s.store(m, u.load(m))
+			inst := u.load(m)
+			if inst == nil {
+				s.store(m, nil)
+				continue
+			}
+			// Copy the value: storing u's instance itself would make the
+			// two scopes share it, so that later updates of one scope
+			// would show up in the other.
+			cp := m.newInstance()
+			m.merge(cp, inst)
+			s.store(m, cp)
 		}
 	}
 }
